@@ -181,8 +181,14 @@ func convertBase64(data interface{}) {
 		if len(d) > 0 {
 			switch d[0].(type) {
 			case string:
-				for i, s := range d {
-					decoded, err := base64.StdEncoding.DecodeString(s.(string))
+				for i, v := range d {
+					s, ok := v.(string)
+					if !ok {
+						// not every element of a JSON array has to be
+						// of the type of the first one
+						continue
+					}
+					decoded, err := base64.StdEncoding.DecodeString(s)
 					if err == nil && len(decoded) == 32 {
 						ch, err := chainhash.NewHash(decoded)
 						if err == nil {
@@ -232,13 +238,19 @@ func convertHex(data interface{}) {
 		if len(d) > 0 {
 			switch d[0].(type) {
 			case string:
-				for i, s := range d {
-					ch, err := chainhash.NewHashFromStr(s.(string))
-					if err == nil && len(s.(string)) == 64 {
+				for i, v := range d {
+					s, ok := v.(string)
+					if !ok {
+						// not every element of a JSON array has to be
+						// of the type of the first one
+						continue
+					}
+					ch, err := chainhash.NewHashFromStr(s)
+					if err == nil && len(s) == 64 {
 						d[i] = base64.StdEncoding.EncodeToString(ch.CloneBytes())
 						continue
 					}
-					decoded, err := hex.DecodeString(s.(string))
+					decoded, err := hex.DecodeString(s)
 					if err == nil {
 						d[i] = base64.StdEncoding.EncodeToString(decoded)
 					}
